@@ -299,53 +299,81 @@ Fixpoint resolve_in_order (ord : list string) (defs : list (string * expr))
   end.
 
 (** *** check_subword_spaces (follows references itself, on the not yet resolved root) *)
-Fixpoint expr_head (e : expr) : expr :=
-  match e with
-  | Sequence (c :: _) _ => expr_head c
-  | Subword c _ _ => expr_head c
-  | _ => e
-  end.
 
-Fixpoint expr_tail (e : expr) : expr :=
-  match e with
-  | Sequence cs _ =>
-      (fix last_tail (l : list expr) : expr :=
-         match l with
-         | [] => e
-         | [c] => expr_tail c
-         | _ :: r => last_tail r
-         end) cs
-  | Subword c _ _ => expr_tail c
-  | _ => e
-  end.
+(** [expr_get_head] / [expr_get_tail]: the leaf an expression starts / ends with.  With
+    [follow = Some defs] a reference that has a definition stands for that definition (the Rust
+    recursion is unbounded, guarded by the cycle check: fuel here). *)
+Definition last_opt (l : list expr) : option expr :=
+  match rev l with [] => None | c :: _ => Some c end.
 
-Fixpoint adjacent_terminals (cs : list expr) : option (span * span) :=
-  match cs with
-  | a :: ((b :: _) as r) =>
-      match expr_tail a, expr_head b with
-      | Terminal _ _ _ lsp, Terminal _ _ _ rsp => Some (lsp, rsp)
-      | _, _ => adjacent_terminals r
-      end
-  | _ => None
-  end.
+Section HeadTail.
+  Variable follow : option (list (string * expr)).
+
+  Definition followed (n : string) : option expr :=
+    match follow with Some defs => assoc n defs | None => None end.
+
+  Fixpoint expr_head (fuel : nat) (e : expr) : res expr :=
+    match fuel with
+    | O => OutOfFuel
+    | S fuel' =>
+        match e with
+        | NontermRef n _ _ =>
+            match followed n with Some rhs => expr_head fuel' rhs | None => Ok e end
+        | Sequence (c :: _) _ => expr_head fuel' c
+        | Subword c _ _ => expr_head fuel' c
+        | _ => Ok e
+        end
+    end.
+
+  Fixpoint expr_tail (fuel : nat) (e : expr) : res expr :=
+    match fuel with
+    | O => OutOfFuel
+    | S fuel' =>
+        match e with
+        | NontermRef n _ _ =>
+            match followed n with Some rhs => expr_tail fuel' rhs | None => Ok e end
+        | Sequence cs _ =>
+            match last_opt cs with Some c => expr_tail fuel' c | None => Ok e end
+        | Subword c _ _ => expr_tail fuel' c
+        | _ => Ok e
+        end
+    end.
+
+  (** the first pair of consecutive items ending / starting with a literal *)
+  Fixpoint adjacent_terminals (fuel : nat) (cs : list expr) : res (option (span * span)) :=
+    match cs with
+    | a :: ((b :: _) as r) =>
+        do ta <- expr_tail fuel a;
+        do hb <- expr_head fuel b;
+        match ta, hb with
+        | Terminal _ _ _ lsp, Terminal _ _ _ rsp => Ok (Some (lsp, rsp))
+        | _, _ => adjacent_terminals fuel r
+        end
+    | _ => Ok None
+    end.
+End HeadTail.
 
 Section SubwordSpaces.
   Variable defs : list (string * expr).
 
-  Fixpoint spaces (fuel : nat) (e : expr) (trace : list span) (within : bool) : res unit :=
+  (** [juxt]: [e] is the root of a word; if it is a sequence its items are juxtaposed (and may
+      legitimately start with a literal through a reference: [--opt=<VALUE>]), every other
+      sequence inside a word is space-separated. *)
+  Fixpoint spaces (fuel : nat) (e : expr) (trace : list span) (within juxt : bool) : res unit :=
     match fuel with
     | O => OutOfFuel
     | S fuel' =>
         let all := fix all (l : list expr) : res unit :=
                      match l with
                      | [] => Ok tt
-                     | c :: r => do _ <- spaces fuel' c trace within; all r
+                     | c :: r => do _ <- spaces fuel' c trace within false; all r
                      end in
         match e with
         | Sequence cs _ =>
             do _ <- all cs;
             if within then
-              match adjacent_terminals cs with
+              do adj <- adjacent_terminals (if juxt then None else Some defs) fuel' cs;
+              match adj with
               | Some (l, r) => Err (SubwordSpaces l r trace)
               | None => Ok tt
               end
@@ -354,11 +382,11 @@ Section SubwordSpaces.
         | NontermRef n _ sp =>
             match assoc n defs with
             | None => Ok tt
-            | Some rhs => spaces fuel' rhs (trace ++ [sp]) within
+            | Some rhs => spaces fuel' rhs (trace ++ [sp]) within false
             end
-        | Subword c _ _ => spaces fuel' c trace true
+        | Subword c _ _ => spaces fuel' c trace true true
         | Alternative cs _ | Fallback cs _ => all cs
-        | Optional c _ | Many1 c _ => spaces fuel' c trace within
+        | Optional c _ | Many1 c _ => spaces fuel' c trace within false
         | DistDescr _ _ _ => Panic "check_subword_spaces: DistributiveDescription"
         end
     end.
@@ -473,7 +501,7 @@ Definition from_grammar (builtins : shell -> list (string * string)) (g : gramma
           let table := resolve_in_order ord (map (fun d => (d_name d, d_rhs d)) defs2) in
           let fuel := S (fold_right (fun p n => expr_size (snd p) + n)
                                     (expr_size expr2) table)%nat in
-          do _ <- spaces table (fuel * S (List.length table)) expr2 [] false;
+          do _ <- spaces table (fuel * S (List.length table)) expr2 [] false false;
           let expr3 := resolve table expr2 in
           let expr4 := collapse expr3 in
           let expr5 := propagate expr4 0 in
